@@ -163,6 +163,12 @@ def run_shard(spec, acc):
             comp2[change] = {"mfr": next(m for m in MFRS if m != comp["mfr"]), "inst_lo": comp["inst_lo"] + 1, "inst_hi": comp["inst_hi"] + 1,
                              "function": 160, "dev_class": 80, "sys_inst": comp["sys_inst"] + 1, "industry": 1, "aac": 0}[change]
             claims[sx] += [hist.claim_name(**comp), hist.claim_name(**comp2)]
+        # a multi-function box: two addresses whose NAMEs share unique number and manufacturer (the low 32 bits) and differ
+        # only in instance / function / class
+        box_u, box_m = rng.randrange((1 << 21) - 3), rng.choice(MFRS)
+        sa_, sb_ = rng.sample(sources, 2)
+        claims[sa_] = claims[sa_] + [hist.claim_name(box_u, box_m, inst_lo=0, function=130, dev_class=25)]
+        claims[sb_] = claims[sb_] + [hist.claim_name(box_u, box_m, inst_lo=1, inst_hi=3, function=150, dev_class=75)]
         unclaimed = rng.choice(sources) if rng.random() < 0.5 else None
         if unclaimed:
             claims[unclaimed] = []
